@@ -66,6 +66,9 @@ def extract():
 
 def lake(args, timeout=3000):
     env = dict(os.environ)
+    # the lakefile globs `WV.Audit.+` and `WV.Gen.+`: both directories are git-ignored and must exist on a fresh checkout
+    for d in ("Audit", "Gen"):
+        os.makedirs(os.path.join(LEAN, "WV", d), exist_ok=True)
     r = subprocess.run(["lake"] + args, cwd=LEAN, capture_output=True, text=True, timeout=timeout, env=env)
     return r.returncode, r.stdout + r.stderr
 
